@@ -530,7 +530,7 @@ def handle_violation(c, linked, wd, tier, timeout, memcap):
             if res is not None:
                 c.solver_s += solver
                 ws, wo, fails, ub, unwind = classify(c2, res)
-                if ws > 0 and ws == wo and not fails and not (unwind and c.get("unwind_is_property", False)):
+                if ws > 0 and wo > 0 and not fails and not (unwind and c.get("unwind_is_property", False)):
                     c.status = "known"
                     c.known = [k["what"] for k in ks]
                     shutil.rmtree(wd2, ignore_errors=True)
